@@ -268,7 +268,24 @@ pub fn tr_method(cx: &mut Ctx, m: &ExprMethodCall, expected: Option<&Ty>) -> R<T
                         Ty::Opt(Box::new(Ty::Int(IntK::Usize))),
                     ))
                 }
-                _ => Err(format!("list/iterator method .{}", name)),
+                "next" if m.args.is_empty() => {
+                    // `iter.next()` on a mutable local iterator: hoisted as `let (n, iter) := listNext iter`
+                    let base = match strip(&m.receiver) {
+                        Expr::Path(p) if p.path.segments.len() == 1 => p.path.segments[0].ident.to_string(),
+                        _ => return Err(".next() on complex place".into()),
+                    };
+                    let (ln, _) = cx.lookup(&base).ok_or(".next() on unknown")?;
+                    let tmp = cx.fresh("nx");
+                    cx.prelude.push(format!("let ({}, {}) := (listNext {})\n", tmp, ln, ln));
+                    Ok(Tr::new(tmp, Ty::Opt(Box::new(el))))
+                }
+                _ => {
+                    let key = format!("IterStatistics::{}", name);
+                    if el == Ty::F64 && cx.idx.fns.contains_key(&key) {
+                        return call_fn(cx, &key, Some(&recv), &m.args);
+                    }
+                    Err(format!("list/iterator method .{}", name))
+                }
             }
         }
         t => Err(format!("method .{} on {:?}", name, t)),
